@@ -7,6 +7,7 @@ import (
 	"time"
 
 	ds "github.com/ipfs/go-datastore"
+	dsq "github.com/ipfs/go-datastore/query"
 	dssync "github.com/ipfs/go-datastore/sync"
 	"github.com/libp2p/go-libp2p/core/peer"
 	"github.com/libp2p/go-libp2p/core/peerstore"
@@ -31,6 +32,8 @@ func (ps *vfPstore) PeerInfo(p peer.ID) peer.AddrInfo { return peer.AddrInfo{ID:
 type vfCountingDS struct {
 	ds.Batching
 	accesses int
+	onQuery  func()
+	hookAfterQuery bool
 }
 
 func (d *vfCountingDS) Get(ctx context.Context, k ds.Key) ([]byte, error) {
@@ -44,6 +47,22 @@ func (d *vfCountingDS) Put(ctx context.Context, k ds.Key, v []byte) error {
 func (d *vfCountingDS) Delete(ctx context.Context, k ds.Key) error {
 	d.accesses++
 	return d.Batching.Delete(ctx, k)
+}
+
+// onQuery, when set, is called once at the start of the next Query, or once
+// its results have been collected (hookAfterQuery).
+func (d *vfCountingDS) Query(ctx context.Context, q dsq.Query) (dsq.Results, error) {
+	d.accesses++
+	h := d.onQuery
+	d.onQuery = nil
+	if h != nil && !d.hookAfterQuery {
+		h()
+	}
+	res, err := d.Batching.Query(ctx, q)
+	if h != nil && d.hookAfterQuery {
+		h() // the map datastore has taken its snapshot by now
+	}
+	return res, err
 }
 
 func vfProvAddr() ma.Multiaddr {
@@ -175,6 +194,66 @@ func VfProviderCloseRace() {
 	vfReach("providers/close-race-end")
 }
 
+// VfProviderLoadRace (C07): an AddProvider that is acknowledged while another
+// caller is loading the same (uncached) key from the datastore is visible to
+// every later query, like any other acknowledged addition.
+func VfProviderLoadRace() {
+	ctx := context.Background()
+	store := &vfCountingDS{Batching: dssync.MutexWrap(ds.NewMapDatastore())}
+	ps := &vfPstore{addrs: map[peer.ID][]ma.Multiaddr{}}
+	key := []byte("some-key")
+	provs := []peer.ID{peer.ID("prov-a"), peer.ID("prov-b")}
+	mk := func() *ProviderManager {
+		pm, err := NewProviderManager(peer.ID("self"), ps, store, CleanupInterval(0))
+		vfAssert(err == nil && pm != nil, "providers/constructor")
+		return pm
+	}
+	// a previous run left a provider for the key on disk: the key is cold now
+	pm := mk()
+	vfAssert(pm.AddProvider(ctx, key, peer.AddrInfo{ID: provs[0]}) == nil, "providers/add")
+	vfAssert(pm.Close() == nil, "close/no-error")
+	pm = mk()
+	late := provs[1]
+	if vfBool("lateAdditionRefreshesTheStoredProvider") {
+		late = provs[0]
+	}
+	done := make(chan struct{})
+	var aerr error
+	store.hookAfterQuery = vfBool("additionLandsAfterTheLoadersSnapshot")
+	store.onQuery = func() {
+		go func() {
+			aerr = pm.AddProvider(ctx, key, peer.AddrInfo{ID: late})
+			close(done)
+		}()
+		// give the addition the chance to run to completion (it cannot while
+		// the loader holds the manager's lock, which is fine too)
+		select {
+		case <-done:
+		case <-time.After(50 * time.Millisecond):
+		}
+	}
+	first, err := pm.GetProviders(ctx, key)
+	vfAssert(err == nil, "providers/get")
+	<-done
+	vfAssert(aerr == nil, "providers/add")
+	has := func(l []peer.AddrInfo, id peer.ID) bool {
+		for _, p := range l {
+			if p.ID == id {
+				return true
+			}
+		}
+		return false
+	}
+	vfAssert(has(first, provs[0]), "providers/stored-provider-is-returned")
+	second, err := pm.GetProviders(ctx, key)
+	vfAssert(err == nil, "providers/get")
+	vfAssert(has(second, provs[0]) && has(second, late), "providers/acknowledged-addition-is-visible-to-later-queries")
+	vfAssert(len(second) == 1+vfIte(late != provs[0], 1, 0), "providers/each-provider-once")
+	vfAssert(pm.Close() == nil, "close/no-error")
+	vfAssert(vfLiveGoroutines() == 1, "close/no-goroutine-left")
+	vfReach("providers/load-race-end")
+}
+
 // VfProviderTimeCodec (C07-H1): the timestamp codec round-trips every int64.
 func VfProviderTimeCodec() {
 	ns := vfI64("nanos")
@@ -192,4 +271,5 @@ func VfProviderTimeCodec() {
 
 var _ = vfRegister("VfProviderHistory", VfProviderHistory)
 var _ = vfRegister("VfProviderCloseRace", VfProviderCloseRace)
+var _ = vfRegister("VfProviderLoadRace", VfProviderLoadRace)
 var _ = vfRegister("VfProviderTimeCodec", VfProviderTimeCodec)
